@@ -125,7 +125,11 @@ Section Proto.
         match optval v0 with
         | None => None
         | Some v =>
-          if bytes_eqb k (B"before") then match atoi v with Some z => deser_opts rest acc z a m | None => None end
+          if bytes_eqb k (B"before") then
+            match atoi v with
+            | Some z => if (c_max_before_context <? z)%Z then None else deser_opts rest acc z a m   (* refused: too large *)
+            | None => None
+            end
           else if bytes_eqb k (B"after") then match atoi v with Some z => deser_opts rest acc b z m | None => None end
           else if bytes_eqb k (B"max") then match atoi v with Some z => deser_opts rest acc b a z | None => None end
           else deser_opts rest ((k, v) :: acc) b a m     (* options[key] = val: later wins *)
